@@ -2815,3 +2815,107 @@ Lemma break_handler_examples :
   transl_ok [IStmt (STry [SMark 1 None] [SBreak])] = false /\
   transl_ok [IStmt (SWhile n_flag [STry [SMark 1 None] [SBreak]])] = true.
 Proof. repeat split; reflexivity. Qed.
+
+(* ------------------------------------------------------------------ a name bound anywhere in the prologue is never
+   re-declared in loop() *)
+Lemma fresh_not_mem : forall l d x, mem_name x d = true -> mem_name x (fresh d l) = false.
+Proof.
+  induction l as [|a r IH]; intros d x H; cbn [fresh]; [reflexivity|].
+  destruct (mem_name a d) eqn:E; [apply IH; exact H|].
+  rewrite mem_cons. destruct (name_eqb x a) eqn:F.
+  - apply name_eqb_eq in F. subst a. congruence.
+  - cbn [orb]. apply IH. rewrite mem_cons, H. apply orb_true_r.
+Qed.
+
+Lemma mem_fresh : forall l d x, mem_name x (d ++ fresh d l) = mem_name x (d ++ l).
+Proof.
+  induction l as [|a r IH]; intros d x; cbn [fresh]; [reflexivity|].
+  destruct (mem_name a d) eqn:E.
+  - rewrite IH, !mem_name_app, mem_cons. destruct (name_eqb x a) eqn:F; [|reflexivity].
+    apply name_eqb_eq in F. subst a. rewrite E. reflexivity.
+  - pose proof (IH (a :: d) x) as H. cbn [app] in H. rewrite !mem_cons, !mem_name_app in H.
+    rewrite !mem_name_app, !mem_cons.
+    destruct (mem_name x d), (name_eqb x a), (mem_name x (fresh (a :: d) r)), (mem_name x r); cbn in *; congruence.
+Qed.
+
+Lemma vardecls_prom : forall top ins nn x, mem_name x nn = false ->
+  mem_name x (flat_map vardecls_irn (prom top ins nn)) = false.
+Proof.
+  intros top ins nn x H. unfold prom. destruct (top && ins); [reflexivity|]. destruct top.
+  - induction nn as [|y r IH]; [reflexivity|]. cbn [map flat_map vardecls_irn app]. rewrite mem_cons in *.
+    apply orb_false_iff in H as [H1 H2]. rewrite H1. exact (IH H2).
+  - induction nn as [|y r IH]; [reflexivity|]. cbn [map flat_map vardecls_irn app]. apply IH.
+    rewrite mem_cons in H. apply orb_false_iff in H as [_ H2]. exact H2.
+Qed.
+
+Lemma nodecl_list : forall x l,
+  Forall (fun s => forall top ins d, mem_name x d = true ->
+                   mem_name x (flat_map vardecls_irn (ir_stmt top ins d s)) = false) l ->
+  forall top ins d, mem_name x d = true -> mem_name x (flat_map vardecls_irn (ir_list top ins d l)) = false.
+Proof.
+  intros x l HF. induction HF as [|s r Hs _ IH]; intros top ins d H; [reflexivity|].
+  cbn [ir_list]. rewrite flat_map_app, mem_name_app, (Hs top ins d H). cbn [orb].
+  apply IH. rewrite mem_name_app, H. reflexivity.
+Qed.
+
+Lemma nodecl_stmt : forall x s top ins d, mem_name x d = true ->
+  mem_name x (flat_map vardecls_irn (ir_stmt top ins d s)) = false.
+Proof.
+  intros x s. induction s as [id dev|dd|y e|dv y|l| |y b el IHb IHe|c b IHb|y b IHb|b h IHb IHh] using stmt_ind';
+    intros top ins d H; try reflexivity.
+  - cbn [ir_stmt]. destruct (mem_name y d) eqn:E; [reflexivity|]. destruct (top && ins); [destruct e; reflexivity|].
+    destruct top; [|reflexivity]. cbn [flat_map vardecls_irn app]. rewrite mem_cons. cbn [mem_name existsb]. rewrite orb_false_r.
+    destruct (name_eqb x y) eqn:F; [|reflexivity]. apply name_eqb_eq in F. subst y. congruence.
+  - cbn [ir_stmt]. rewrite flat_map_app, mem_name_app, vardecls_prom by (apply fresh_not_mem; exact H).
+    cbn [flat_map vardecls_irn app orb]. rewrite app_nil_r, !ir_block_eq, mem_name_app.
+    rewrite (nodecl_list x b IHb false ins d H), (nodecl_list x el IHe false ins d H). reflexivity.
+  - cbn [ir_stmt]. rewrite flat_map_app, mem_name_app, vardecls_prom by (apply fresh_not_mem; exact H).
+    cbn [flat_map vardecls_irn app orb]. rewrite app_nil_r, !ir_block_eq.
+    exact (nodecl_list x b IHb false ins d H).
+  - cbn [ir_stmt]. rewrite flat_map_app, mem_name_app, vardecls_prom by (apply fresh_not_mem; exact H).
+    cbn [flat_map vardecls_irn app orb]. rewrite app_nil_r, !ir_block_eq.
+    exact (nodecl_list x b IHb false ins d H).
+  - cbn [ir_stmt]. rewrite flat_map_app, mem_name_app, vardecls_prom by (apply fresh_not_mem; exact H).
+    cbn [flat_map vardecls_irn app orb]. rewrite app_nil_r, !ir_block_eq, mem_name_app.
+    rewrite (nodecl_list x b IHb false ins d H), (nodecl_list x h IHh false ins d H). reflexivity.
+Qed.
+
+Lemma nodecl_items : forall x its d, main_last its = true ->
+  mem_name x (d ++ flat_map assigned_stmt (fst (split its))) = true ->
+  mem_name x (flat_map vardecls_irn (snd (ir_items d its))) = false.
+Proof.
+  intros x. induction its as [|it r IH]; intros d Hm H; [reflexivity|]. destruct it as [s|b|f b].
+  - rewrite main_last_cons_stmt in Hm. cbn [ir_items split] in *.
+    specialize (IH (d ++ assigned_stmt s) Hm).
+    destruct (split r) as [a c]. destruct (ir_items (d ++ assigned_stmt s) r) as [a' c']. cbn [fst snd flat_map] in *.
+    apply IH. rewrite <- app_assoc. exact H.
+  - apply main_last_cons_main in Hm. subst r. cbn [ir_items split fst snd flat_map] in *. rewrite app_nil_r in *.
+    apply (nodecl_list x b); [|exact H]. apply Forall_forall. intros s _ top ins d0. apply nodecl_stmt.
+  - rewrite main_last_cons_func in Hm. cbn [ir_items split] in *. apply IH; assumption.
+Qed.
+
+Lemma nolocal_items : forall x its d, main_last its = true ->
+  mem_name x (d ++ flat_map assigned_stmt (fst (split its))) = true ->
+  mem_name x (snd (classify d its)) = false.
+Proof.
+  intros x. induction its as [|it r IH]; intros d Hm H; [reflexivity|]. destruct it as [s|b|f b].
+  - rewrite main_last_cons_stmt in Hm. cbn [classify split] in *.
+    specialize (IH (d ++ fresh d (assigned_stmt s)) Hm).
+    destruct (split r) as [a c]. destruct (classify (d ++ fresh d (assigned_stmt s)) r) as [g l]. cbn [fst snd flat_map] in *.
+    apply IH. rewrite mem_name_app, mem_fresh, <- mem_name_app, <- app_assoc. exact H.
+  - apply main_last_cons_main in Hm. subst r. cbn [classify split fst snd flat_map] in *. rewrite app_nil_r in *.
+    apply fresh_not_mem. exact H.
+  - rewrite main_last_cons_func in Hm. cbn [classify split] in *. apply IH; assumption.
+Qed.
+
+Lemma prologue_names_global : forall its x, one_main_last its = true ->
+  mem_name x (flat_map assigned_stmt (fst (split its))) = true ->
+  mem_name x (flat_map vardecls_irn (ir_loop its)) = false /\ mem_name x (locals_of its) = false.
+Proof.
+  intros its x Hm H. split.
+  - unfold ir_loop. rewrite !flat_map_app, !mem_name_app.
+    assert (Hp : forall l, flat_map vardecls_irn (map NPoll l) = []) by (induction l as [|y r IH]; [reflexivity|exact IH]).
+    assert (Ht : forall l, flat_map vardecls_irn (map NTick l) = []) by (induction l as [|y r IH]; [reflexivity|exact IH]).
+    rewrite Hp, Ht. cbn [mem_name existsb orb]. apply nodecl_items; [exact Hm|exact H].
+  - unfold locals_of. apply nolocal_items; [exact Hm|exact H].
+Qed.
